@@ -3,6 +3,7 @@
 -/
 import TealerModel.Props.Common
 import TealerModel.Props.Tie
+import TealerModel.Lemmas.IntLeaf
 namespace Tealer.C06
 
 /-- tie to today's source (constants and tables imported from /repo on this run) -/
@@ -79,5 +80,25 @@ theorem C06_leaf_exact_if_mirrored (c : Cmp) (n : Nat) (U : NatSet) (v : Nat) (h
   exact ⟨h1, h2⟩
 
 example : (16 : Nat) ∈ sizesU ∧ Cmp.le.eval 16 16 = true := by decide
+
+/-- THE GROUP-SIZE LEAF AGAINST THE CONCRETE SEMANTICS.  In a straight run of a block, a comparison instruction whose
+    reconstructed operands are the outputs of `global GroupSize` and of `int n` pushes a non-zero value exactly when
+    `size op n` holds for the size of the group being approved; hence (`C06_leaf_exact`) that size is in the true set of the
+    operator table when the pushed value is non-zero and in the false set when it is zero. -/
+theorem C06_leaf_concrete (prog : List Ins) (e : Avm.Env) (blockIns : List Ins) (pc0 : Nat) (st : Nat → Avm.State) (k : Nat)
+    (hrun : OperandValues.BlockRun prog e blockIns pc0 k st) (valOf : Nat × Nat → Avm.Val)
+    (hout : ∀ j, j < k → ∀ i, i < (blockIns[j]!).op.pushes →
+      (st (j + 1)).stack[(st j).stack.length - (blockIns[j]!).op.pops + i]? = some (valOf (j, i)))
+    (hargs : ∀ j, j < k → List.Forall₂ (OperandValues.Agree valOf) (OperandValues.argsAt blockIns j)
+      ((st j).stack.drop ((st j).stack.length - (blockIns[j]!).op.pops)))
+    (p p1 p2 : Nat) (c : Cmp) (n : Nat) (hp : p < k) (hp1 : p1 < k) (hp2 : p2 < k)
+    (hopp : (blockIns[p]!).op = .cmp c) (hop1 : (blockIns[p1]!).op = .global "GroupSize")
+    (hop2 : (blockIns[p2]!).op = .int (.lit n))
+    (hargsp : OperandValues.argsAt blockIns p = [some (p1, 0), some (p2, 0)]) (hsize : e.size ∈ sizesU) :
+    (EvalRun.truthy (valOf (p, 0)) = true → e.size ∈ OSet.ofList (assertedIntValues c n sizesU)) ∧
+    (EvalRun.truthy (valOf (p, 0)) = false → e.size ∈ OSet.diff sizesU (OSet.ofList (assertedIntValues c n sizesU))) := by
+  have h := IntLeaf.size_leaf prog e blockIns pc0 st k hrun valOf hout hargs p p1 p2 c n hp hp1 hp2 hopp hop1 hop2 hargsp
+  rw [h]
+  exact ⟨(IntSet.asserted_true_iff c n sizesU e.size hsize).mpr, (IntSet.asserted_false_iff c n sizesU e.size hsize).mpr⟩
 
 end Tealer.C06
